@@ -70,6 +70,36 @@ class JacWorld(World):
                 d(t, y, **consts)
             except Boom:
                 pass
+        elif k == "wrapper":
+            # the finite-difference wrapper itself on a seeded map R^in_shape -> R^out_shape (non-square, multi-dimensional)
+            from desolver.utilities import JacobianWrapper
+            fd = op["fd"]
+            ish, osh = tuple(fd["in_shape"]), tuple(fd["out_shape"])
+            n, m = int(np.prod(ish)), int(np.prod(osh))
+            hdim = len(fd["b"])
+            W1 = np.asarray(fd["W1"], dtype=np.float64).reshape(hdim, n).astype(dtype)
+            W2 = np.asarray(fd["W2"], dtype=np.float64).reshape(m, hdim).astype(dtype)
+            b = np.asarray(fd["b"], dtype=np.float64).astype(dtype)
+            lin = bool(fd.get("linear"))
+            w = self
+
+            def h(y, **kw):
+                w.peer_call("F")
+                z = W1 @ np.asarray(y).reshape(-1) + b
+                return (W2 @ (z if lin else np.tanh(z))).reshape(osh)
+            y = np.asarray(op["y"], dtype=np.float64).astype(dtype).reshape(ish)
+            z = W1 @ y.reshape(-1) + b
+            dz = np.ones_like(z) if lin else (1 - np.tanh(z) ** 2)
+            want = ((W2 * dz[None, :]) @ W1).reshape(osh + ish)
+            rec = {"op": i, "wrapper": True, "want": want, "linear": lin, "base_order": op["base_order"], "exc": None, "out": None}
+            try:
+                jw = JacobianWrapper(h, base_order=op["base_order"], flat=False, sample_input=y)
+                rec["out"] = jw(y)
+            except (BudgetExceeded, WallTimeout):
+                raise
+            except Exception as e:
+                rec["exc"] = e
+            self.records.append(rec)
         elif k == "jac":
             t = np.asarray(op["t"], dtype=dtype)
             y = np.asarray(op["y"], dtype=dtype).reshape(self.problem.shape)
@@ -104,12 +134,12 @@ class C16(Prop):
     quick = {"seeds": 3000, "wall_cap": 90, "chunk": 16}
     thorough = {"seeds": 60000, "wall_cap": 1500, "chunk": 32}
     rule = ("one case = one seeded history of 3-12 ops on a DiffRHS wrapper {jac(t,y) at seeded points with repeated and changing t, hook_jacobian_call(J_i), "
-            "unhook_jacobian_call(), rhs.jac = J_i, construction from an rhs that itself carries .jac, plain rhs calls} with optional rhs faults raised "
+            "unhook_jacobian_call(), rhs.jac = J_i, construction from an rhs that itself carries .jac, plain rhs calls, and the finite-difference wrapper itself on seeded non-square / multi-dimensional maps R^n -> R^m with base orders 2-7} with optional rhs faults raised "
             "DURING a finite-difference evaluation; programs are random smooth (deliberately non-symmetric Jacobians, multi-dimensional states), linear "
             "ones included.  The same wrapper is also exercised in situ by every implicit integration of C02/C12/C20.  Non-trivial = at least two jac "
             "requests were answered; distinct = distinct canonical scenario JSON")
     assumptions = ["reference model of the dispatch state: attached in {None, tag}; after unhook an rhs carrying its own .jac is attached again",
-                   "finite-difference accuracy: |J - J_analytic| <= 1e-7*(1+|J|) for smooth programs (calibrated: max observed ratio in evidence), 1e-10*(1+|J|) for linear programs",
+                   "finite-difference accuracy: |J - J_analytic| <= 5e-9*(1+|J|) for smooth programs (calibrated: >= 10x the largest error observed on the unchanged tree, ratio in evidence), 5e-11*(1+|J|) for linear programs",
                    "the rhs calls of one request must all be at the requested t and within 1+|y| of the requested y"]
 
     def generate(self, seed, tier):
@@ -144,8 +174,18 @@ class C16(Prop):
                 ops.append({"op": "assign", "tag": "J%d" % tag})
             elif x < 0.92:
                 ops.append({"op": "unhook"})
-            else:
+            elif x < 0.96:
                 ops.append({"op": "call", "t": gen.rnd(r, -5, 5, 3), "y": [gen.rnd(r, -1, 1, 3) for _ in range(N)]})
+            else:
+                ish = r.choice([[1], [2], [3], [4], [2, 2], [3, 2]])
+                osh = r.choice([[1], [2], [3], [5], [2, 3], [2, 1, 2]])
+                n_, m_ = int(np.prod(ish)), int(np.prod(osh))
+                hd = r.choice([2, 3, 4])
+                ops.append({"op": "wrapper", "base_order": r.choice([2, 3, 4, 5, 5, 7]),
+                            "fd": {"in_shape": ish, "out_shape": osh, "W1": [gen.rnd(r, -1, 1, 3) for _ in range(hd * n_)],
+                                   "W2": [gen.rnd(r, -1, 1, 3) for _ in range(m_ * hd)], "b": [gen.rnd(r, -0.5, 0.5, 3) for _ in range(hd)],
+                                   "linear": bool(r.random() < 0.3)},
+                            "y": [gen.rnd(r, -1.5, 1.5, 3) * r.choice([1.0, 1.0, 1e-3, 10.0]) for _ in range(n_)]})
         if not any(o["op"] == "jac" for o in ops):
             ops.append({"op": "jac", "t": 0.5, "y": [0.3] * N})
         ops.append({"op": "jac", "t": ops[-1].get("t", 0.25) if ops[-1]["op"] == "jac" else 0.75, "y": [gen.rnd(r, -1, 1, 3) for _ in range(N)] if prob["family"] != "logistic" else [0.4] * N})
@@ -180,6 +220,26 @@ class C16(Prop):
         consts = dict(scn["system"].get("constants") or {})
         for rec in w.records:
             i = rec["op"]
+            if rec.get("wrapper"):
+                if rec["exc"] is not None:
+                    bad("wrapper_answers", "JacobianWrapper(base_order=%d) raised %s: %s" % (rec["base_order"], type(rec["exc"]).__name__, str(rec["exc"])[:80]), i)
+                    continue
+                answered += 1
+                out, want = np.asarray(rec["out"]), rec["want"]
+                if out.shape != want.shape:
+                    bad("layout", "JacobianWrapper returned shape %r, expected (*f.shape, *y.shape) = %r" % (out.shape, want.shape), i)
+                    continue
+                Jn = float(np.max(np.abs(want))) if want.size else 0.0
+                err = float(np.max(np.abs(out.astype(np.float64) - want.astype(np.float64))))
+                base = {"float32": 5e-2, "float64": 5e-9, "longdouble": 5e-9}[scn["problem"]["dtype"]]
+                if rec["linear"]:
+                    base = {"float32": 2e-3, "float64": 5e-11, "longdouble": 5e-11}[scn["problem"]["dtype"]]
+                tol = base * (1.0 + Jn)
+                name = "fd_wrapper_linear" if rec["linear"] else "fd_wrapper_accuracy"
+                res["ratios"][P + "." + name] = max(res["ratios"].get(P + "." + name, 0), err / tol)
+                if err > tol:
+                    bad(name, "JacobianWrapper(base_order=%d) on R^%r -> R^%r: |J_fd - J| = %.3e > %.3e" % (rec["base_order"], want.shape[len(want.shape) - len(np.shape(rec["out"])) + 0:], want.shape, err, tol), i)
+                continue
             t, y = rec["t"], rec["y"]
             if rec["exc"] is not None:
                 injected = any(rec["exc"] is x for x in w.raised)
@@ -236,10 +296,10 @@ class C16(Prop):
                 Jn = float(np.max(np.abs(want))) if np.size(want) else 0.0
                 err = float(np.max(np.abs(np.asarray(out, dtype=np.float64) - np.asarray(want, dtype=np.float64))))
                 if w.problem.linear or scn["problem"]["family"] == "linear":
-                    tol = {"float32": 2e-3, "float64": 1e-10, "longdouble": 1e-10}[scn["problem"]["dtype"]] * (1.0 + Jn)
+                    tol = {"float32": 2e-3, "float64": 5e-11, "longdouble": 5e-11}[scn["problem"]["dtype"]] * (1.0 + Jn)
                     name = "fd_linear_rounding"
                 else:
-                    tol = {"float32": 5e-2, "float64": 1e-7, "longdouble": 1e-7}[scn["problem"]["dtype"]] * (1.0 + Jn)
+                    tol = {"float32": 5e-2, "float64": 5e-9, "longdouble": 5e-9}[scn["problem"]["dtype"]] * (1.0 + Jn)
                     name = "fd_accuracy"
                 res["ratios"][P + "." + name] = max(res["ratios"].get(P + "." + name, 0), err / tol)
                 if err > tol:
